@@ -256,9 +256,12 @@ def sig_of(spec, tag):
 
 # --------------------------------------------------------------------------
 # real objects
-def build_network(spec):
+def build_network(spec, warm=None):
     """The real tracklib Network for a spec.  Returns (net, node_ids, nodes, edge_ids).
-    String identifiers, as produced by tracklib's own network reader."""
+    String identifiers, as produced by tracklib's own network reader.
+    warm: a random.Random -- call history on the Network object: routing requests are made when only some of the
+    edges are there (their answers concern that smaller graph and are not judged here), then the remaining edges
+    are added; every later answer must be about the graph as it is then."""
     from tracklib.core.network import Network, Node, Edge
     from tracklib.core.track import Track
     from tracklib.core.obs import Obs
@@ -272,7 +275,24 @@ def build_network(spec):
     for nd in nodes:
         net.addNode(nd)
     eids = []
+    stage = warm.randrange(0, len(spec["edges"])) if warm is not None and spec["edges"] else None
     for k, e in enumerate(spec["edges"]):
+        if stage is not None and k == stage:
+            from vt import monitor as _M
+            for _ in range(warm.randrange(1, 5)):
+                a, b = warm.randrange(n), warm.randrange(n)
+                kind = warm.choice(["pair", "path", "list", "table", "cut"])
+                if kind == "pair":
+                    _M.call(net.shortest_distance, ids[a], ids[b])
+                elif kind == "path":
+                    _M.call(net.shortest_path, ids[a], ids[b])
+                elif kind == "list":
+                    _M.call(net.shortest_distance, ids[a])
+                elif kind == "table":
+                    _M.call(net.all_shortest_distances)
+                else:
+                    _M.call(net.shortest_distance, ids[a], None, warm.choice([0.0, 0.5, 1.0, 2.0, 3.5]))
+            _M.CTX.count("network_queried_before_all_edges_were_added")
         tr = Track()
         for p in polyline(spec, k):
             tr.addObs(Obs(ENUCoords(p[0], p[1], 0), ObsTime()))
